@@ -1,7 +1,8 @@
 // Leaf driver: the repository's own Variable::calculate_flat_index (core/interpreter.h) behind the
 // line protocol of ocaml/c05_driver.ml:   "flat <dims> | <idxs>"  ->  "<k>" | "ERR".
-// Indices are read as int64_t and converted with static_cast<int> exactly as every caller does
-// (managers/arrays/manager.cpp:1337, evaluator/access/address_ops.cpp:170).
+// Indices are read as int64_t and converted with Variable::index_to_int exactly as every caller does
+// (managers/arrays/manager.cpp:1343, evaluator/access/address_ops.cpp:170); an index that does not fit
+// an int makes index_to_int throw, which is an ERR like any other rejection.
 #include "src/backend/interpreter/core/interpreter.h"
 #include <cstdint>
 #include <iostream>
@@ -25,8 +26,10 @@ int main() {
         auto dims = parse_list(rest.substr(0, bar)); auto idx = parse_list(rest.substr(bar + 1));
         Variable v;
         for (auto d : dims) v.array_type_info.dimensions.push_back(ArrayDimension(static_cast<int>(d), false));
-        std::vector<int> ii; for (auto i : idx) ii.push_back(static_cast<int>(static_cast<int64_t>(i)));
-        try { std::cout << v.calculate_flat_index(ii) << "\n"; }
+        try {
+            std::vector<int> ii; for (auto i : idx) ii.push_back(Variable::index_to_int(static_cast<int64_t>(i)));
+            std::cout << v.calculate_flat_index(ii) << "\n";
+        }
         catch (const std::exception &) { std::cout << "ERR\n"; }
     }
     return 0;
